@@ -857,7 +857,7 @@ fn main() {
         property: "C15",
         classes: CLASSES,
         required: &["returned_none_or_err", "returned_value_valid", "range_end_receiver", "headroom_receiver", "format_items_bounded", "format_error_item", "string_rejected", "string_accepted"],
-        rule: "every public non-deprecated fallible entry point (table in the driver, mirrored in DESIGN.md appendix A) x the complete product of integer lattices (type extremes, +-2^k, +-2^k+-1, decimal edges, alias classes) per argument (<= 3 arguments: full product; more: boundary subsets), receivers at both range ends incl. zone-aware values whose local reading lies in the one-day headroom and a leap second on the last second; strings: ALL strings of length <= 4 (thorough 5) over a 22-symbol trigger alphabet and all 1-edit mutants of 20 valid inputs, into every FromStr, both RFC parsers and parse_from_str / parse_and_remainder under 10 formats; format strings: ALL strings of length <= 5 (thorough 6) over a 21-symbol alphabet and all 1-edit mutants of 10 valid formats: StrftimeItems::new / new_lenient must end within 16*(len+1) items, parse / parse_to_owned / format / parse_from_str with them must return; every call runs under the panic monitor, every returned value is re-validated (fields in range, instant within [MIN, MAX]); a watchdog turns a call that does not return within 60 s into a violation",
+        rule: "every public non-deprecated fallible entry point (table in the driver, mirrored in DESIGN.md appendix A) x the complete product of integer lattices (type extremes, +-2^k, +-2^k+-1, decimal edges, alias classes) per argument (<= 3 arguments: full product; more: boundary subsets), receivers at both range ends incl. zone-aware values whose local reading lies in the one-day headroom and a leap second on the last second; strings: ALL strings of length <= 4 (thorough 5) over a 22-symbol trigger alphabet and all 1-edit mutants of 20 valid inputs, into every FromStr, both RFC parsers and parse_from_str / parse_and_remainder under 10 formats; decimal numbers of every digit count up to 40 and around the 32- / 64-bit limits in every number position, repeated structure (comments, white space, padding, fraction digits) at every length up to 300 and around 2^16; format strings: repeated items / literals / flags at those lengths and ALL strings of length <= 5 (thorough 6) over a 21-symbol alphabet and all 1-edit mutants of 10 valid formats: StrftimeItems::new / new_lenient must end within 16*(len+1) items, parse / parse_to_owned / format / parse_from_str with them must return; every call runs under the panic monitor, every returned value is re-validated (fields in range, instant within [MIN, MAX]); a watchdog turns a call that does not return within 60 s into a violation",
         assumptions: &["panics are accepted only at the documented sites (operator arithmetic, deprecated constructors, naive_local()/date_naive() on headroom values, to_rfc2822 outside 0..=9999, Display of an invalid format) — those are simply not called here", "the item bound is linear with a generous constant (a composite specifier expands 2 bytes into up to 13 items)"],
     };
     let tier = args.tier;
